@@ -28,6 +28,9 @@ func init() {
 			{ID: "R09d", Floor: 4, Doc: "explicit panics in library packages are discharged (validated guard) or the check fails", Run: ruleR09d},
 			{ID: "R09e", Floor: 1, Doc: "Header.ReadFrom: range checks before field stores", Run: ruleR09e},
 			{ID: "R09g", Floor: 1, Doc: "the limit is applied once: ReadHeader hands its reader to the framing reader unwrapped (an extra LimitReader of the same limit also counts the prefix and rejects a header exactly at the maximum)", Run: ruleR09g},
+			{ID: "R09h", Floor: 1, Doc: "Reader.IndexReader answers (nil, nil) only for `Version == 1 || !Header.HasIndex()`: its callers test HasIndex and then use the reader unchecked, so any further nil outcome is a nil dereference on crafted headers", Run: ruleR09h},
+			{ID: "R09i", Floor: 1, Doc: "a length decoded with encoding/binary's uvarint readers (which admit values up to 2^64-1, unlike go-varint) is compared, unsigned, with a bound before it is converted to a signed integer: a negative section length makes seeks go backwards and scans never end", Run: ruleR09i},
+			{ID: "R09j", Floor: 1, Doc: "(nil, nil) outcomes: a library function whose first result is a pointer, interface, slice or map returns nil together with a nil error only where that is its documented contract (table); a new such outcome is a nil dereference waiting in callers that test only the error", Run: ruleR09j},
 			{ID: "R09f", Floor: 1, Doc: "singleWidthIndex.Unmarshal: bucket bytes come from an exact-length read of dataLen with its error tested", Run: ruleR09f},
 		},
 	})
@@ -658,8 +661,22 @@ var panicTable = map[string]panicDischarge{
 		},
 	},
 	"v2/index.newRecordDigest": {
-		"panics only when multihash.Decode rejects Record.Cid.Hash(); every cid.Cid built by go-cid holds a well-formed multihash, and InsertionIndex is never constructed from serialized input by index.ReadFrom",
-		validateDecodeHashPanic,
+		"panics only when multihash.Decode rejects Record.Cid.Hash(); every cid.Cid built by go-cid holds a well-formed multihash, and InsertionIndex is never constructed from serialized input by index.ReadFrom (index.New, its codec dispatcher, returns no InsertionIndex)",
+		func(c *Ctx, fn *ssa.Function, p *ssa.Panic) string {
+			if why := validateDecodeHashPanic(c, fn, p); why != "" {
+				return why
+			}
+			nw, err := c.Func(pkgIndex, "", "New")
+			if err != nil {
+				return err.Error()
+			}
+			for _, t := range concreteReturns(c, nw, 0, 0) {
+				if isNamed(t, pkgIndex, "InsertionIndex") {
+					return "index.New, the codec dispatcher of index.ReadFrom, can construct an InsertionIndex: its Unmarshal decodes records from file bytes and hands them to newRecordDigest, which panics on a record whose CID has no decodable multihash"
+				}
+			}
+			return ""
+		},
 	},
 	"v2/index.newRecordFromCid": {
 		"panics only when multihash.Decode rejects c.Hash() of a cid.Cid (see newRecordDigest)",
@@ -886,4 +903,188 @@ func subtractionsFeeding(v ssa.Value) []*ssa.BinOp {
 	}
 	walk(v, 0)
 	return out
+}
+
+// concreteReturns lists the concrete types a function can return in result
+// position res (following calls to repository constructors).
+func concreteReturns(c *Ctx, fn *ssa.Function, res, depth int) []types.Type {
+	var out []types.Type
+	if depth > 3 {
+		return nil
+	}
+	for _, ret := range returnsOf(fn) {
+		if res >= len(ret.Results) {
+			continue
+		}
+		for _, o := range origins(ret.Results[res], originOpts{}) {
+			switch o.Kind {
+			case "call":
+				if o.Fn != nil {
+					if callee := c.Prog.FuncValue(o.Fn); callee != nil && len(callee.Blocks) > 0 {
+						if _, isIface := callee.Signature.Results().At(o.Res).Type().Underlying().(*types.Interface); isIface {
+							out = append(out, concreteReturns(c, callee, o.Res, depth+1)...)
+						} else {
+							out = append(out, callee.Signature.Results().At(o.Res).Type())
+						}
+					}
+				}
+			case "alloc", "make", "field", "other", "param":
+				t := o.Val.Type()
+				if al, ok := o.Val.(*ssa.Alloc); ok {
+					t = al.Type()
+				}
+				out = append(out, t)
+			}
+		}
+	}
+	return out
+}
+
+func ruleR09h(c *Ctx, r *Report) {
+	fn, err := c.Func(modV2, "Reader", "IndexReader")
+	if err != nil {
+		r.InfraFail("%v", err)
+		return
+	}
+	key := "nil-reader-outcome@" + fnKey(fn)
+	v1 := cmpEdges(fn, func(v ssa.Value) bool { return loadsField(canon(v), modV2, "Reader", "Version") },
+		func(v ssa.Value) bool { k, ok := constInt(v); return ok && k == 1 }, "eq")
+	noIdx := condEdges(fn, matchCallCond(modV2, "Header", "HasIndex", false, nil))
+	rs := reach(fn, nil, edgeSet(v1, noIdx))
+	bad := ""
+	n := 0
+	for _, ret := range returnsOf(fn) {
+		if len(ret.Results) != 2 || !isNilConst(ret.Results[0]) || !isNilConst(ret.Results[1]) {
+			continue
+		}
+		n++
+		if rs[ret.Block()] {
+			bad = fmt.Sprintf("the (nil, nil) return at %s is reachable when the header announces an index on a CARv2: callers that tested HasIndex() hand the nil reader to index.ReadFrom", c.Pos(ret.Pos()))
+		}
+	}
+	r.Check(bad == "", key, c.Pos(fn.Pos()), fmt.Sprintf("%d nil-reader return(s), all behind Version == 1 || !HasIndex()", n), bad)
+}
+
+func ruleR09i(c *Ctx, r *Report) {
+	n := 0
+	for _, fn := range c.RepoFuncs() {
+		if !inLib(fn) {
+			continue
+		}
+		ord := 0
+		eachInstr(fn, func(in ssa.Instruction) {
+			ci, ok := in.(*ssa.Call)
+			if !ok {
+				return
+			}
+			f := calleeFunc(ci.Common())
+			if !(funcIs(f, "encoding/binary", "", "ReadUvarint") || funcIs(f, "encoding/binary", "", "Uvarint")) {
+				return
+			}
+			n++
+			ord++
+			key := fmt.Sprintf("uvarint-to-signed@%s#%d", fnKey(fn), ord)
+			L := extractOf(ci, 0)
+			if L == nil {
+				r.Hold(key, c.Pos(ci.Pos()), "value unused")
+				return
+			}
+			isL := func(v ssa.Value) bool { return canon(v) == L || v == L }
+			le := cmpEdges(fn, isL, func(v ssa.Value) bool { return !isL(v) }, "le")
+			rs := reach(fn, ci.Block(), edgeSet(le))
+			bad := ""
+			var visit func(v ssa.Value, d int)
+			seen := map[ssa.Value]bool{}
+			visit = func(v ssa.Value, d int) {
+				if seen[v] || d > 6 {
+					return
+				}
+				seen[v] = true
+				refs := v.Referrers()
+				if refs == nil {
+					return
+				}
+				for _, ref := range *refs {
+					switch x := ref.(type) {
+					case *ssa.Convert:
+						if bt, ok := x.Type().Underlying().(*types.Basic); ok && bt.Info()&types.IsInteger != 0 && bt.Info()&types.IsUnsigned == 0 {
+							if rs[x.Block()] {
+								bad = fmt.Sprintf("the value is converted to %s at %s without having been bounded: lengths of 2^63 and above become negative", bt.Name(), c.Pos(x.Pos()))
+							}
+							continue
+						}
+						visit(x, d+1)
+					case *ssa.Phi:
+						visit(x, d+1)
+					case *ssa.Store:
+						if al, ok := x.Addr.(*ssa.Alloc); ok {
+							for _, rr := range *al.Referrers() {
+								if u, ok := rr.(*ssa.UnOp); ok && u.Op == token.MUL {
+									visit(u, d+1)
+								}
+							}
+						}
+					}
+				}
+			}
+			visit(L, 0)
+			r.Check(bad == "", key, c.Pos(ci.Pos()), "never converted to a signed integer before an unsigned bound check", bad)
+		})
+	}
+	r.Count("encoding/binary uvarint decodes in library packages", n)
+}
+
+// nilNilContract: functions that may answer (nil, nil), with the reason.
+var nilNilContract = map[string]string{
+	"v2.Reader.IndexReader": "no index to read: CARv1 or a header without index (the exact condition is pinned by R09h)",
+}
+
+func ruleR09j(c *Ctx, r *Report) {
+	n := 0
+	for _, fn := range c.RepoFuncs() {
+		if !inLib(fn) {
+			continue
+		}
+		for _, g := range withAnon(fn) {
+			res := g.Signature.Results()
+			if res.Len() < 2 {
+				continue
+			}
+			if !types.Identical(res.At(res.Len()-1).Type(), types.Universe.Lookup("error").Type()) {
+				continue
+			}
+			switch res.At(0).Type().Underlying().(type) {
+			case *types.Pointer, *types.Interface, *types.Slice, *types.Map:
+			default:
+				continue
+			}
+			for _, ret := range returnsOf(g) {
+				if len(ret.Results) != res.Len() {
+					continue
+				}
+				all := true
+				for i := range ret.Results {
+					if !resultIsNilConst(ret, i) {
+						// numeric zero results next to the nil value are fine
+						if k, ok := constInt(retResult(ret, i)); ok && k == 0 && i != 0 && i != len(ret.Results)-1 {
+							continue
+						}
+						all = false
+					}
+				}
+				if !all {
+					continue
+				}
+				n++
+				key := "nil-nil@" + fnKey(g)
+				why, ok := nilNilContract[fnKey(g)]
+				if ok {
+					r.Hold(key, c.Pos(ret.Pos()), "documented contract: "+why)
+				} else {
+					r.Viol(key, c.Pos(ret.Pos()), "returns a nil value together with a nil error, which is not this function's contract: callers that check only the error go on to use the nil value")
+				}
+			}
+		}
+	}
+	r.Count("(nil, nil) returns in library packages", n)
 }
